@@ -195,6 +195,33 @@ def second_run_on_same_pipeline(nodes, case, detail):
         shutil.rmtree(tmp, ignore_errors=True)
 
 
+def non_json_sweep_checks(run: core.Run) -> None:
+    """Sweeps over values that are not JSON types (what YAML yields for an unquoted date / timestamp / !!binary; tuples,
+    Decimals, sets from the Python API): the run is valid, so its trace is the bracket of three schema-valid records."""
+    import datetime as _dt
+    import decimal as _dec
+    from ..traced import run_traced, schema_errors
+
+    for vals in ([_dt.date(2026, 1, 1), _dt.date(2026, 1, 2)], [_dt.datetime(2026, 1, 1, 12, 0)], [b"\x00\xff", b"a"], [(1, 2), (3, 4)],
+                 [_dec.Decimal("1.5")], [frozenset({1})]):
+        nodes = [{"processor": "FloatValueDataSource", "derive": {"parameter_sweep": {"parameters": {"value": "2.0 if d else 3.0"}, "variables": {"d": {"values": vals}},
+                                                                                       "collection": "FloatDataCollection"}}}]
+        for detail in ("hash", "all"):
+            run.evaluations += 1
+            obs = run_traced(nodes, None, {}, detail=detail)
+            kinds = [r.get("record_type") for r in obs["records"]]
+            tname = type(vals[0]).__name__
+            if obs["raised"] is not None or kinds != ["pipeline_start", "ser", "pipeline_end"]:
+                run.violation(f"shape:non-json-sweep-values:{tname}", f"sweep over {vals!r} (detail={detail}): raised {obs['raised']}, records {kinds}", {"nodes": str(nodes)})
+                continue
+            for r in obs["records"]:
+                errs = schema_errors(r)
+                if errs:
+                    run.violation(f"schema:non-json-sweep-values:{r.get('record_type')}", f"sweep over {vals!r} (detail={detail}): the {r.get('record_type')} record "
+                                  f"violates its registry schema: {errs}", {"nodes": str(nodes)})
+                    break
+
+
 def _replay(run: core.Run, cfg: str, **kw):
     res, path = tlc.emit_cases("MC_TraceStream", cfg, **kw)
     run.add_tlc(res, count_states=False)
@@ -267,6 +294,7 @@ def check(tier: str) -> int:
     got = set(run.extra.get("cases_by_failure_class", {}))
     if not need <= got:
         raise core.MachineryError(f"vacuity: failure classes never exercised: {sorted(need - got)}")
+    non_json_sweep_checks(run)
     from . import c06_trace
     c06_trace.validate(run, tier)
     run.exhaustive = True
